@@ -137,7 +137,9 @@ func Alphabet(s *wire.Spec, fi int) []wire.Val {
 			}
 			return o
 		}
-		return []wire.Val{{B: []byte{1, 2, 3}}, {B: []byte{}}, {B: []byte{0}}, {B: []byte{0xff}}, {B: bytes.Repeat([]byte{0xff}, 32)}, {B: counting(256)}, {B: counting(1)}, {B: counting(2)}}
+		// the long values sit around the sizes at which printers cut such fields into words (512-octet chunks)
+		return []wire.Val{{B: []byte{1, 2, 3}}, {B: []byte{}}, {B: []byte{0}}, {B: []byte{0xff}}, {B: bytes.Repeat([]byte{0xff}, 32)}, {B: counting(256)}, {B: counting(1)}, {B: counting(2)},
+			{B: counting(511)}, {B: counting(512)}, {B: counting(513)}, {B: counting(1023)}, {B: counting(1024)}, {B: counting(1025)}, {B: counting(1536)}, {B: counting(2048)}}
 	case wire.A:
 		return []wire.Val{{B: []byte{192, 0, 2, 1}}, {B: []byte{0, 0, 0, 0}}, {B: []byte{255, 255, 255, 255}}}
 	case wire.AAAA:
